@@ -55,12 +55,12 @@ func (v *fvw) emit(e interface{}) {
 }
 
 type fBackend struct {
-	db       aquadb.Database
-	mux      *event.TypeMux
-	feed     *event.Feed
+	db                      aquadb.Database
+	mux                     *event.TypeMux
+	feed                    *event.Feed
 	txFeed, rmFeed, logFeed event.Feed
-	size     uint64
-	sections uint64 // index progress reported to the filter
+	size                    uint64
+	sections                uint64 // index progress reported to the filter
 }
 
 func (b *fBackend) ChainDb() aquadb.Database { return b.db }
@@ -503,7 +503,60 @@ func runFilterChain(t *testing.T, w *fvw, rng *rand.Rand, cidx, nq int, realInde
 				err  error
 			)
 			ctx, cancel := context.WithTimeout(context.Background(), 60*time.Second)
-			if rng.Intn(4) == 0 {
+			jsonTopics := qt // the criteria the specification judges: a JSON null among alternatives makes the position a wildcard
+			if r := rng.Intn(6); r == 0 || r == 1 {
+				// the criteria arrive as JSON (as over RPC): single topics as strings, positions as null, alternatives as arrays
+				// that may contain a null (= wildcard) anywhere
+				via = "api-json"
+				var tops []interface{}
+				jsonTopics = [][]common.Hash{}
+				for _, alt := range qt {
+					switch {
+					case len(alt) == 0:
+						tops = append(tops, nil)
+						jsonTopics = append(jsonTopics, []common.Hash{})
+					case len(alt) == 1 && rng.Intn(2) == 0:
+						tops = append(tops, alt[0].Hex())
+						jsonTopics = append(jsonTopics, alt)
+					default:
+						arr := []interface{}{}
+						for _, h := range alt {
+							arr = append(arr, h.Hex())
+						}
+						if rng.Intn(3) == 0 {
+							at := rng.Intn(len(arr) + 1)
+							arr = append(arr[:at], append([]interface{}{nil}, arr[at:]...)...)
+							jsonTopics = append(jsonTopics, []common.Hash{})
+						} else {
+							jsonTopics = append(jsonTopics, alt)
+						}
+						tops = append(tops, arr)
+					}
+				}
+				doc := map[string]interface{}{"topics": tops}
+				if len(qa) == 1 && rng.Intn(2) == 0 {
+					doc["address"] = qa[0].Hex()
+				} else if len(qa) > 0 {
+					as := []string{}
+					for _, a := range qa {
+						as = append(as, a.Hex())
+					}
+					doc["address"] = as
+				}
+				if from != -1 {
+					doc["fromBlock"] = fmt.Sprintf("0x%x", from)
+				}
+				if to != -1 {
+					doc["toBlock"] = fmt.Sprintf("0x%x", to)
+				} else if rng.Intn(2) == 0 {
+					doc["toBlock"] = "latest"
+				}
+				raw, _ := json.Marshal(doc)
+				var crit filters.FilterCriteria
+				if err = json.Unmarshal(raw, &crit); err == nil {
+					logs, err = api.GetLogs(ctx, crit)
+				}
+			} else if r == 2 {
 				via = "api"
 				crit := filters.FilterCriteria{Addresses: qa, Topics: qt}
 				if from != -1 {
@@ -536,7 +589,7 @@ func runFilterChain(t *testing.T, w *fvw, rng *rand.Rand, cidx, nq int, realInde
 				qas = append(qas, fhex(a[:]))
 			}
 			qts := [][]string{}
-			for _, alt := range qt {
+			for _, alt := range jsonTopics {
 				s := []string{}
 				for _, tp := range alt {
 					s = append(s, fhex(tp[:]))
